@@ -1,9 +1,14 @@
 import Fabio.Generated.C05
 import Fabio.Model.Parse
 /-!
-C05 — obligations over the facts regenerated from `/repo` on every run: the regex sources the tokenizer of
-`Model/Parse.lean` was validated for (stream `c05.line`), the order in which the parsers try them, the
-flexible-space replacement, and the constants / call shapes the table and rendering models mirror.
+C05 — obligations over the facts regenerated from `/repo` on every run.
+
+The facts pin meaning, not spelling (see the header of `tools/factgen/c05.go`): functions are found by role from
+the exported entry points, bodies are walked with calls into unexported helpers followed, expressions are
+printed as shapes (`_` = any local/parameter/receiver, `ƒ` = an unexported same-package callee, `g` = a
+package-level variable), constants are inlined and `switch` is an if-chain. Renaming locals or unexported
+functions, extracting/inlining helpers, if/else ↔ switch, named constants and `Replace(…, -1)` ↔ `ReplaceAll`
+leave every fact unchanged.
 -/
 namespace Fabio.Props.C05Facts
 open Fabio Fabio.Generated.C05 Fabio.Model.Parse
@@ -12,108 +17,94 @@ open Fabio Fabio.Generated.C05 Fabio.Model.Parse
 syntax "pin" : tactic
 macro_rules | `(tactic| pin) => `(tactic| first | rfl | (apply And.intro <;> pin))
 
-/-- `strings.Replace(re, from, to, -1)` for a one-character `from` -/
-def flex (from_ : Char) (to : List Char) (re : String) : String :=
-  String.ofList (re.toList.flatMap (fun c => if c == from_ then to else [c]))
+/-! ### the command language -/
 
-/-! ### the dispatch regexes of `Parse` and their order -/
-
-theorem dispatch_regexes :
-    reComment = "^(#|//)" ∧ reBlankLine = "^\\s*$" ∧ reRouteAdd = "^route\\s+add" ∧
-    reRouteDel = "^route\\s+del" ∧ reRouteWeight = "^route\\s+weight" := by pin
-
-theorem dispatch_order :
-    parseDispatch = ["reComment", "reBlankLine", "reRouteAdd", "reRouteDel", "reRouteWeight"] := by pin
-
-/-- `Parse` trims each line with `strings.TrimSpace`, uses the default scanner buffer (64 KiB tokens) and
-reports the scanner's error (D29 repaired) — `Model.Parse.maxToken` is that limit. -/
-theorem scanner_facts :
-    parseTrimsSpace = true ∧ parseSetsScannerBuffer = false ∧ parseChecksScannerErr = true ∧
-    maxScanTokenSize = maxToken := by pin
-
-/-- `Parse` is stateless from line to line: the only things it assigns are the current definition, its error,
-the trimmed line, the line counter, the scanner and the result list; the only `continue` is the one for
-comments/blank lines; every other line appends exactly one definition; nothing is allocated to remember
-earlier lines. (`Model.Parse.parseLines` maps each line independently.) -/
-theorem parse_stateless :
-    parseAssigned = ["def", "defs", "err", "i", "result", "scanner"] ∧
-    parseContinues = 1 ∧ parseAllocations = 0 ∧ parseAppends = ["append(defs, def)"] := by pin
-
-/-! ### the grammars: flexible space, sources, order of attempts -/
-
-theorem flexible_space : flexFrom = " " ∧ flexTo = "\\s+" ∧ flexCount = "-1" ∧ flexCompiles = 1 := by pin
-
-theorem reAdd_pinned : flex ' ' flexTo.toList reAdd =
-    "^route\\s+add\\s+(\\S+)\\s+(\\S+)\\s+(\\S+)(\\s+weight\\s+(\\S+))?(\\s+tags\\s+\"([^\"]*)\")?(\\s+opts\\s+\"([^\"]*)\")?$" := by decide
-
-theorem reDelSvcTags_pinned : flex ' ' flexTo.toList reDelSvcTags =
-    "^route\\s+del\\s+(\\S+)\\s+tags\\s+\"([^\"]*)\"$" := by decide
-
-theorem reDelTags_pinned : flex ' ' flexTo.toList reDelTags = "^route\\s+del\\s+tags\\s+\"([^\"]*)\"$" := by pin
-
-theorem reDel_pinned : flex ' ' flexTo.toList reDel = "^route\\s+del\\s+(\\S+)(\\s+(\\S+)(\\s+(\\S+))?)?$" := by pin
-
-theorem reWeightSvc_pinned : flex ' ' flexTo.toList reWeightSvc =
-    "^route\\s+weight\\s+(\\S+)\\s+(\\S+)\\s+weight\\s+(\\S+)(\\s+tags\\s+\"([^\"]*)\")?$" := by decide
-
-theorem reWeightSrc_pinned : flex ' ' flexTo.toList reWeightSrc =
-    "^route\\s+weight\\s+(\\S+)\\s+weight\\s+(\\S+)\\s+tags\\s+\"([^\"]*)\"$" := by decide
-
-/-- `parseRouteAdd` uses `reAdd`; `parseRouteDel` tries `reDelSvcTags`, `reDelTags`, `reDel` in that order;
-`parseRouteWeight` tries `reWeightSvc`, then `reWeightSrc` — as `Model.Parse.parseRouteDel/Weight` do. -/
-theorem try_order :
-    addTries = ["reAdd"] ∧ delTries = ["reDelSvcTags", "reDelTags", "reDel"] ∧
-    weightTries = ["reWeightSvc", "reWeightSrc"] := by pin
+/-- The regular expressions `Parse` consults, in order, with the calls into the three command parsers followed
+and the flexible-space replacement applied: comment, blank, `route add` (then `reAdd`), `route del` (then the
+service+tags, tags-only, plain forms in that order), `route weight` (then the service form, then the source
+form). These are the strings the tokenizer of `Model/Parse.lean` was validated for (stream `c05.line`), and the
+order is the order of `parseLine` / `parseRouteDel` / `parseRouteWeight`. -/
+theorem regex_events : regexEvents =
+    ["match:^(#|//)", "match:^\\s*$",
+     "match:^route\\s+add",
+     "find:^route\\s+add\\s+(\\S+)\\s+(\\S+)\\s+(\\S+)(\\s+weight\\s+(\\S+))?(\\s+tags\\s+\"([^\"]*)\")?(\\s+opts\\s+\"([^\"]*)\")?$",
+     "match:^route\\s+del",
+     "find:^route\\s+del\\s+(\\S+)\\s+tags\\s+\"([^\"]*)\"$",
+     "find:^route\\s+del\\s+tags\\s+\"([^\"]*)\"$",
+     "find:^route\\s+del\\s+(\\S+)(\\s+(\\S+)(\\s+(\\S+))?)?$",
+     "match:^route\\s+weight",
+     "find:^route\\s+weight\\s+(\\S+)\\s+(\\S+)\\s+weight\\s+(\\S+)(\\s+tags\\s+\"([^\"]*)\")?$",
+     "find:^route\\s+weight\\s+(\\S+)\\s+weight\\s+(\\S+)\\s+tags\\s+\"([^\"]*)\"$"] := by pin
 
 /-- the keywords of the tokenizer are the literals of the pinned regexes -/
 theorem keywords : kRoute = "route".toList ∧ kAdd = "add".toList ∧ kDel = "del".toList ∧
-    kWeight = "weight".toList ∧ kTags = "tags".toList ∧ kOpts = "opts".toList := by pin
+    kWeight = "weight".toList ∧ kTags = "tags".toList ∧ kOpts = "opts".toList := by decide
 
-theorem helpers_pinned :
-    parseTagsCalls = ["strings.Split(s, \",\")", "strings.TrimSpace(t)"] ∧
-    parseOptsCalls = ["strings.Fields(s)", "strings.SplitN(f, \"=\", 2)"] ∧
-    parseWeightCalls = ["strconv.ParseFloat(s, 64)"] := by pin
+/-- the string functions reached from `Parse` (set): `TrimSpace` for the line and the tags, `Split` on `,`,
+`Fields` and `SplitN(·, "=", 2)` for the options, `ParseFloat(·, 64)` for the weight -/
+theorem parse_lib_calls : parseLibCalls =
+    ["strconv.ParseFloat(_, 64)", "strings.Fields(_)", "strings.Split(_, \",\")", "strings.SplitN(_, \"=\", 2)",
+     "strings.TrimSpace(_)"] := by pin
 
-/-! ### table commands -/
+/-- `Parse` trims each line once, reads with a default `bufio.Scanner` (64 KiB tokens, `Model.Parse.maxToken`) and
+reports the scanner's error (D29 repaired). -/
+theorem scanner_facts :
+    parseUsesNewScanner = true ∧ parseTrimsSpace = true ∧ parseSetsScannerBuffer = false ∧
+    parseChecksScannerErr = true ∧ maxScanTokenSize = maxToken := by pin
 
-/-- all three commands lower-case the host (`del` through `Table.route`): D04 repaired -/
-theorem hosts_lowered :
-    addRouteLowersHost = true ∧ weighRouteLowersHost = true ∧ routeLowersHost = true ∧
-    delRouteLookups = ["t.route(hostpath(d.Src))", "t.route(hostpath(d.Src))"] := by pin
+/-- `Parse` is stateless from line to line: three variables live across iterations (the current definition, the
+line counter, the scanner — besides the named results), the only `continue` is the one guarded by the comment /
+blank-line regexes, and the only `append` adds the line's definition to the result. -/
+theorem parse_stateless :
+    parseLoopCarriedVars = 3 ∧ parseContinues = 1 ∧
+    parseContinueGuards = ["g.MatchString(_) || g.MatchString(_)"] ∧ parseAppends = ["append(_, _)"] := by pin
+
+/-! ### table commands (handlers found from `NewTable` by the command they serve) -/
+
+/-- all three commands lower-case the host somewhere on their path (D04 repaired); `NewTable` sorts at the end -/
+theorem hosts_lowered : addLowersHost = true ∧ delLowersHost = true ∧ weightLowersHost = true ∧ newTableSorts = true := by pin
 
 theorem hostpath_shape :
-    hostpathCalls = ["strings.HasPrefix(prefix, \":\")", "strings.SplitN(prefix, \"/\", 2)"] := by pin
+    hostpathCalls = ["strings.HasPrefix(_, \":\")", "strings.SplitN(_, \"/\", 2)"] := by pin
 
-/-- the four forms of `delRoute` and what each removes -/
-theorem delRoute_shape :
-    delRouteCases = ["len(d.Tags) > 0", "d.Src == \"\" && d.Dst == \"\"", "d.Dst == \"\"", "default"] ∧
-    delRoutePredicates = ["(d.Service == \"\" || tg.Service == d.Service) && contains(tg.Tags, d.Tags)",
-      "tg.Service == d.Service", "tg.Service == d.Service",
-      "tg.Service == d.Service && tg.URL.String() == targetURL.String()"] := by pin
+/-- the four forms of `route del`, what each removes, and that hosts are deleted from the table -/
+theorem del_shape :
+    delCases = ["len(_.Tags) > 0", "_.Src == \"\" && _.Dst == \"\"", "_.Dst == \"\""] ∧
+    delPredicates = ["(_.Service == \"\" || _.Service == _.Service) && ƒ(_.Tags, _.Tags)",
+      "_.Service == _.Service", "_.Service == _.Service",
+      "_.Service == _.Service && _.URL.String() == _.String()"] ∧
+    delDeletesHosts = true := by pin
 
-/-- `addTarget`: clamp of negative weights, de-duplication on service, URL string, fixed weight, tags -/
-theorem addTarget_shape :
-    addTargetFirstConds = ["fixedWeight < 0",
-      "t.Service == service && t.URL.String() == targetURL.String() && t.FixedWeight == fixedWeight && reflect.DeepEqual(t.Tags, tags)"] := by pin
+/-- `route add`: negative weights are clamped, then the de-duplication on service, URL string, fixed weight, tags -/
+theorem add_shape :
+    addClampAndDedup = ["_ < 0",
+      "_.Service == _ && _.URL.String() == _.String() && _.FixedWeight == _ && reflect.DeepEqual(_.Tags, _)"] := by pin
 
-theorem setWeight_shape :
-    setWeightConds = ["service != \"\" && t.Service != service", "len(tags) > 0 && !contains(t.Tags, tags)", "n > 0"] ∧
-    setWeightDivisions = ["weight / float64(n)"] := by pin
+/-- `route weight`: which targets match, and the share is divided by their number -/
+theorem weight_shape :
+    weightMatchConds = ["_ != \"\" && _.Service != _", "len(_) > 0 && !ƒ(_.Tags, _)"] ∧
+    weightDividesByMatches = true := by pin
 
-/-- `Routes.Less`: lower-cased paths descending, ties by the raw path descending (`Model.Route.pathLt`) -/
-theorem less_shape : lessReturns = ["lj < li", "rt[j].Path < rt[i].Path"] := by pin
+/-- `Routes.Less(i, j)`: lower-cased paths descending (`v0` = lower path of `i`, `v1` = of `j`), ties by the raw
+path descending — `Model.Route.pathLt` -/
+theorem less_shape : lessEvents =
+    ["v0, v1 := strings.ToLower(recv[p0].Path), strings.ToLower(recv[p1].Path)", "if v0 != v1",
+     "return v1 < v0", "return recv[p1].Path < recv[p0].Path"] := by pin
 
 /-! ### rendering -/
 
-/-- `TargetConfig`: `%.4f` for the fixed weight, plain quotes for tags (D07 repaired) and options, keys sorted -/
-theorem targetConfig_formats :
+/-- `TargetConfig`: `%.4f` for the fixed weight when it is > 0, plain quotes for tags (D07 repaired) and options,
+keys sorted -/
+theorem targetConfig_shape :
     targetConfigFormats = ["route add %s %s %s", " weight %2.4f", " weight %.4f", " tags \"%s\"", " opts \"%s\""] ∧
-    targetConfigSorts = ["sort.Strings(keys)"] := by pin
+    targetConfigGuards = ["_", "_.FixedWeight > 0", "len(_.Tags) > 0", "len(_.Opts) > 0"] ∧
+    targetConfigSortsKeys = true := by pin
 
-/-- `Route.config` leaves out targets without traffic share only in the weighted display, never in `String()` -/
-theorem config_shape :
-    routeConfigSkips = ["addWeight && t.Weight <= 0"] ∧
-    tableConfigSorts = ["sort.Sort(sort.Reverse(sort.StringSlice(hosts)))"] ∧
-    tableStringJoins = ["strings.Join(t.config(false), \"\\n\")"] := by pin
+/-- `Table.String()`: hosts in reverse order, lines joined by `\n`, rendered without effective weights
+(`false`), targets without traffic share left out only in the weighted display -/
+theorem string_shape :
+    tableStringJoins = ["strings.Join(_.ƒ(false), \"\\n\")"] ∧
+    tableStringSorts = ["sort.Sort(sort.Reverse(sort.StringSlice(_)))"] ∧
+    tableStringSkips = ["_ && _.Weight <= 0"] := by pin
 
 end Fabio.Props.C05Facts
